@@ -38,6 +38,7 @@
 #include <cxxabi.h>
 #include <pthread.h>
 #include <unistd.h>
+#include <cerrno>
 
 #include "hexasm.hpp"
 #include "hexsim.hpp"
@@ -106,9 +107,15 @@ static void writeInputs(const std::string &files) {
 }
 
 /// Compile with the real driver. Returns "" on success, else the observation line.
+// `errno` is process state the code under test can read (strtoul & co.): the harness's own libc calls must not change
+// what the NEXT compilation finds there (C11: "whatever was processed earlier in the same process").
+static int g_code_errno = 0;
+struct ErrnoScope { ErrnoScope() { errno = g_code_errno; } ~ErrnoScope() { g_code_errno = errno; } };
+
 static std::string compile(const std::string &src) {
   try {
     std::ostringstream sink;
+    ErrnoScope es;
     xcmp::Driver driver(sink);
     driver.run(xcmp::DriverAction::EMIT_BINARY, src, false, "a.bin");
     return "";
@@ -150,8 +157,11 @@ static std::string compileAction(const std::string &action, const std::string &s
   unlink("x.bin");
   std::ostringstream out;
   try {
-    xcmp::Driver driver(out);
-    driver.run(actionOf(action), src, false, "x.bin");
+    {
+      ErrnoScope es;
+      xcmp::Driver driver(out);
+      driver.run(actionOf(action), src, false, "x.bin");
+    }
     bool ex; std::string bin = readFile("x.bin", ex);
     return "ok out=" + tohex(out.str()) + " bin=" + (ex ? tohex(bin) : std::string("-"));
   } catch (const hexutil::Error &e) {
